@@ -25,8 +25,8 @@ type c13Config struct {
 
 var c13Configs = []c13Config{{2, 2}, {3, 2}, {3, 3}, {4, 3}}
 
-var c13CtlFaults = []string{"pass", "lost", "error-reply", "duplicate"}
-var c13ContribFaults = []string{"pass", "lost", "error-reply", "share-random", "share-for-other-id", "commitment-altered", "vector-short", "vector-long", "vector-empty", "share-zero", "duplicate", "resend-commitment-altered", "resend-vector-short", "resend-vector-long", "resend-vector-empty"}
+var c13CtlFaults = []string{"pass", "lost", "error-reply", "duplicate", "duplicate-first-reply-seen"}
+var c13ContribFaults = []string{"pass", "lost", "error-reply", "share-random", "share-for-other-id", "commitment-altered", "vector-short", "vector-long", "vector-empty", "share-zero", "duplicate", "duplicate-first-reply-seen", "resend-commitment-altered", "resend-vector-short", "resend-vector-long", "resend-vector-empty"}
 var c13ReplyFaults = []string{"pass", "lost", "share-random", "share-for-other-id", "commitment-altered", "vector-short", "vector-long", "vector-empty", "share-zero", "share-offset-compensated"}
 
 // c13Negate returns -d in the scalar field of BLS12-381.
@@ -159,6 +159,8 @@ func c13Child(cfg c13Config, bound int, skip map[string]bool) c13Result {
 				return rig.DeliverThenError
 			case "duplicate":
 				return rig.DeliverTwice
+			case "duplicate-first-reply-seen":
+				return rig.DeliverTwiceFirstReply
 			case "resend-commitment-altered", "resend-vector-short", "resend-vector-long", "resend-vector-empty":
 				// The genuine contribution arrives, then a second copy with the same share and another vector.
 				rejecting = true
@@ -416,7 +418,7 @@ func C13(tier string) int {
 	run.Coverage = map[string]any{
 		"evaluations":         execs,
 		"distinct_nontrivial": len(outcomes),
-		"rule":                fmt.Sprintf("for (n,t) in {(2,2),(3,2),(3,3),(4,3)} every execution of a full generation on real instances with at most %d faults, where every prepare and execute message (lost, error reply, duplicate), every contribution request (lost, error reply, random share, contribution made for another identifier, altered commitment, vector one entry short, vector one entry long with a consistent share, vector with no entries, all-zero share, duplicate, and the genuine contribution followed by a second copy with the same share and an altered, short, long or empty vector) and every contribution reply (lost, random share, other identifier, altered commitment, short, long, empty, zero share, and a share raised by a random offset with the next reply to the same instance lowered by it) is a choice point; run in worker processes so that a crash is observed; oracle: after a rejecting fault the client gets an error and no instance holds the account; duplicates are all-or-nothing; no worker dies; distinct = (config, outcome) pairs", bound),
+		"rule":                fmt.Sprintf("for (n,t) in {(2,2),(3,2),(3,3),(4,3)} every execution of a full generation on real instances with at most %d faults, where every prepare and execute message (lost, error reply, duplicate with the sender seeing the second reply, duplicate with the sender seeing the first), every contribution request (lost, error reply, random share, contribution made for another identifier, altered commitment, vector one entry short, vector one entry long with a consistent share, vector with no entries, all-zero share, duplicate, and the genuine contribution followed by a second copy with the same share and an altered, short, long or empty vector) and every contribution reply (lost, random share, other identifier, altered commitment, short, long, empty, zero share, and a share raised by a random offset with the next reply to the same instance lowered by it) is a choice point; run in worker processes so that a crash is observed; oracle: after a rejecting fault the client gets an error and no instance holds the account; duplicates are all-or-nothing; no worker dies; distinct = (config, outcome) pairs", bound),
 		"samples":             samples.List(),
 		"exhaustive":          true,
 		"deviation_bound":     bound,
